@@ -1233,6 +1233,13 @@ pub fn inputs_c20(r: &mut Rng, n: usize, _tier: &str, out: &mut dyn Write) {
                     1 => whole as f64 + 0.5,
                     2 => whole as f64 + (DAY - 1) as f64 / DAY as f64, // last nanosecond of the day (rounded)
                     3 => whole as f64 + r.below(86_400) as f64 / 86_400.0,
+                    // the last / first seconds of the day, as many as the scales differ by (19 s, 33 s, 32.184 s, 10..37 leap
+                    // seconds): where a day or year taken on ANOTHER scale's calendar is the neighbouring one (seeded change
+                    // C20-8: year() counting days from the prime-epoch offset, a year late in the last 19 / 33 s of a GNSS year)
+                    5 => {
+                        let k = *r.pick(&[1i64, 5, 10, 18, 19, 20, 32, 33, 34, 36, 37, 38, 51]) as f64 - (r.below(1000) as f64) / 1000.0;
+                        if r.chance(2, 3) { whole as f64 + (86_400.0 - k) / 86_400.0 } else { whole as f64 + k / 86_400.0 }
+                    }
                     4 => f64::from_bits((whole as f64).to_bits() + r.below(3)),
                     _ => whole as f64 + (r.next() >> 11) as f64 / (1u64 << 53) as f64,
                 };
